@@ -37,6 +37,12 @@ type Starter interface{ Start(o Sink) }
 // Throw is what a model callback panics with when a fault is injected.
 type Throw struct{ Key string }
 
+// SpecFaults selects what a throw inside an operator's error / completion
+// callback means. false: what an observer with callbacks does today - the fault
+// goes to the unhandled hook and nothing is forwarded. true: what the property
+// (C07) states - the failure reaches the subscriber as an Error notification.
+var SpecFaults bool
+
 // Unhandled collects faults that the definition routes to the unhandled-error
 // hook (set per run by the harness; may be nil).
 var Unhandled func(key string)
@@ -165,7 +171,11 @@ func (s *observer) tryError(e string) {
 	defer func() {
 		if r := recover(); r != nil {
 			if th, ok := r.(Throw); ok {
-				unhandled(th.Key)
+				if SpecFaults {
+					s.down.Error(th.Key)
+				} else {
+					unhandled(th.Key)
+				}
 				return
 			}
 			panic(r)
@@ -190,7 +200,11 @@ func (s *observer) Complete() {
 	defer func() {
 		if r := recover(); r != nil {
 			if th, ok := r.(Throw); ok {
-				unhandled(th.Key)
+				if SpecFaults {
+					s.down.Error(th.Key)
+				} else {
+					unhandled(th.Key)
+				}
 				return
 			}
 			panic(r)
